@@ -67,9 +67,9 @@ def shards(tier):
 
 def floors(tier):
     f = {"histories": 400, "operations": 5000, "probes_compared": 30000, "objects_probed_after_5plus_later_ops": 1000,
-         "versioned_create_without_id": 50, "untouched_twins_probed_later": 200}
+         "versioned_create_without_id": 50, "untouched_twins_probed_later": 200, "named_type_verdicts": 5000}
     for op in ("redefine", "redefine_many", "remove", "extend_override", "extend_typechecker", "extend_nochange", "create",
-               "create_version", "extend_version", "create_default_types", "validator_types", "checks", "cls_checks", "formats_subset", "validator_twins"):
+               "create_version", "extend_version", "create_default_types", "validator_types", "checks", "cls_checks", "formats_subset", "validator_twins", "validator_named_types"):
         f["op:" + op] = 150
     return f
 
@@ -268,7 +268,7 @@ class State:
 def gen_ops(rng):
     kinds = ["redefine", "redefine_many", "remove", "extend_override", "extend_typechecker", "extend_nochange", "create",
              "create_version", "extend_version", "create_default_types", "validator_types", "validator_types", "checks", "cls_checks",
-             "formats_subset", "validator_twins"]
+             "formats_subset", "validator_twins", "validator_named_types"]
     ops = []
     for _ in range(rng.randrange(5, 26)):
         ops.append({"op": rng.choice(kinds), "r": rng.randrange(10 ** 6)})
@@ -468,6 +468,33 @@ def run_history(rec, ops, base_draft):
                                 return
                         except TypeError:
                             pass
+                elif kind == "validator_named_types":
+                    # types= given CLASSES OF THE PROGRAM'S OWN - several distinct classes carrying the same name (made by
+                    # one factory, or named like a builtin): each validator goes by the classes it was given, whatever
+                    # other validators (of this or another class) were given before
+                    nm, mod = rng.choice([("Custom", "vf.app"), ("int", "builtins"), ("str", "builtins"), ("Thing", "__main__"), ("dict", "builtins")])
+                    mk = lambda: type(nm, (object,), {"__module__": mod})
+                    A, B = mk(), mk()
+                    Sub = type("Sub", (A,), {"__module__": mod})
+                    base = impl.CLS[rng.choice(impl.DRAFTS)]
+                    Cx = base if rng.random() < 0.5 else validators.extend(base)
+                    tname = rng.choice(["custom", "string", "integer", "object"])
+                    givens = [("A", (A,)), ("B", (B,)), ("A-or-B", (A, B)), ("Sub", (Sub,))]
+                    rng.shuffle(givens)
+                    vs = [(lab, tp, Cx({"type": tname}, types={tname: tp if len(tp) > 1 or rng.random() < 0.5 else tp[0]})) for lab, tp in givens]
+                    insts = [("A()", A()), ("B()", B()), ("Sub()", Sub()), ("1", 1), ("'s'", "s"), ("{}", {}), ("True", True)]
+                    for rnd in range(2):
+                        rng.shuffle(insts)
+                        for ilab, inst in insts:
+                            for lab, tp, V in vs:
+                                rec.count("named_type_verdicts")
+                                want = isinstance(inst, tp) and not (isinstance(inst, bool) and bool not in tp)
+                                got = V.is_valid(inst)
+                                if got != want:
+                                    rec.violation("types-argument-confused-by-class-names", dict(case, step=n, type_name=tname, given=lab, instance=ilab, class_name=mod + "." + nm),
+                                                  "validator built with types={%r: %s} says %s for %s (isinstance says %s); the classes are distinct "
+                                                  "objects that share the name %s.%s" % (tname, lab, got, ilab, want, mod, nm))
+                                    return
                 elif kind == "validator_twins":
                     # two identical validator objects; one is probed now, the other is left completely alone and probed
                     # at the end of the history: it must behave as its twin did when both were created (anything an
